@@ -295,46 +295,104 @@ def tsan_reports(stderr, repo):
     return reps
 
 
-def stage_g(ctx):
-    """Regenerate lean/XzVerif/Gen/C07.lean from the source text: the protocol constants the model depends on."""
+W_STATES = ["THR_IDLE", "THR_RUN", "THR_EXIT"]
+PU_MODES = ["PARTIAL_DISABLED", "PARTIAL_START", "PARTIAL_ENABLED"]
+SEQ_NAMES = ["SEQ_STREAM_HEADER", "SEQ_BLOCK_HEADER", "SEQ_BLOCK_INIT", "SEQ_BLOCK_THR_INIT", "SEQ_BLOCK_THR_RUN",
+             "SEQ_BLOCK_DIRECT_INIT", "SEQ_BLOCK_DIRECT_RUN", "SEQ_INDEX_WAIT_OUTPUT", "SEQ_INDEX_DECODE", "SEQ_STREAM_FOOTER",
+             "SEQ_STREAM_PADDING", "SEQ_ERROR"]
+
+
+def g_probe():
+    """The constants as the compiler sees them (harness/c07_probe.c, built against the asan build of the tree under test).
+    Returns a dict or None (probe does not compile / run: a name it uses is gone)."""
+    try:
+        ok, log, exe = vlib.harness_build("c07probe", ["c07_probe.c"], "asan", tu=TU)
+        if not ok:
+            return None
+        rc, out = vlib.sh([exe], timeout=60, env=dict(os.environ, ASAN_OPTIONS="detect_leaks=0"))
+        if rc != 0:
+            return None
+        v = dict((k, int(x)) for k, x in (l.split("=", 1) for l in out.split("\n") if "=" in l))
+
+        def order(names):
+            # an enum whose members are no longer 0,1,2,... in this order is a different protocol: keep the observed order
+            return [n for n in sorted(names, key=lambda n: v[n])] if sorted(v[n] for n in names) == list(range(len(names))) else None
+        return dict(factor=v["bufs_limit_factor"], wst=order(W_STATES), pum=order(PU_MODES), seqs=order(SEQ_NAMES),
+                    rets=dict(ok=v["LZMA_OK"], end=v["LZMA_STREAM_END"], data=v["LZMA_DATA_ERROR"], prog=v["LZMA_PROG_ERROR"],
+                              memlimit=v["LZMA_MEMLIMIT_ERROR"], timed=v["LZMA_TIMED_OUT"]))
+    except Exception:
+        return None
+
+
+def g_regex():
+    """The same constants read from the source text; every entry may be missing (None)."""
     def rd(rel):
         return open(os.path.join(vlib.REPO, rel)).read()
-    try:
-        dec = rd("src/liblzma/common/stream_decoder_mt.c")
-        oq = rd("src/liblzma/common/outqueue.c")
-        base = rd("src/liblzma/api/lzma/base.h")
-        common = rd("src/liblzma/common/common.h")
-        chunk = int(re.search(r"const size_t chunk_size = (\d+);", dec).group(1))
-        m = re.search(r"#define GET_BUFS_LIMIT\(threads\) \((\d+) \* \(threads\)\)", oq)
-        factor = int(m.group(1))
 
-        def enum_names(src, typename):
-            body = re.search(r"typedef enum \{([^{}]*)\}\s*" + typename + r"\s*;", src, re.S).group(1)
-            body = re.sub(r"/\*.*?\*/", "", body, flags=re.S)
-            body = re.sub(r"//[^\n]*", "", body)
-            return [t.strip().split("=")[0].strip() for t in body.split(",") if t.strip()]
-        wst = enum_names(dec, "worker_state")
-        pum = enum_names(dec, "partial_update_mode")
-        seqs = re.search(r"struct lzma_stream_coder \{\s*enum \{(.*?)\} sequence;", dec, re.S).group(1)
-        seqs = [t.strip() for t in re.sub(r"//[^\n]*", "", seqs).split(",") if t.strip()]
-        rets = dict((k, int(v)) for k, v in re.findall(r"^\s*(LZMA_[A-Z_0-9]+)\s*=\s*(\d+),", base, re.M))
+    def attempt(f):
+        try:
+            return f()
+        except Exception:
+            return None
+    dec = attempt(lambda: rd("src/liblzma/common/stream_decoder_mt.c")) or ""
+    oq = attempt(lambda: rd("src/liblzma/common/outqueue.c")) or ""
+    base = attempt(lambda: rd("src/liblzma/api/lzma/base.h")) or ""
+    common = attempt(lambda: rd("src/liblzma/common/common.h")) or ""
+
+    def enum_names(src, typename):
+        body = re.search(r"typedef enum \{([^{}]*)\}\s*" + typename + r"\s*;", src, re.S).group(1)
+        body = re.sub(r"/\*.*?\*/", "", body, flags=re.S)
+        body = re.sub(r"//[^\n]*", "", body)
+        return [t.strip().split("=")[0].strip() for t in body.split(",") if t.strip()]
+
+    def seqs():
+        x = re.search(r"struct lzma_stream_coder \{\s*enum \{(.*?)\} sequence;", dec, re.S).group(1)
+        return [t.strip() for t in re.sub(r"//[^\n]*", "", x).split(",") if t.strip()]
+
+    def rets():
+        r = dict((k, int(v)) for k, v in re.findall(r"^\s*(LZMA_[A-Z_0-9]+)\s*=\s*(\d+),", base, re.M))
         internal = re.search(r"#define LZMA_TIMED_OUT (LZMA_RET_INTERNAL\d)", common).group(1)
-        body = ("/- REGENERATED by tools/props/c07.py (stage G) from src/liblzma/common/stream_decoder_mt.c, outqueue.c, common.h and\n"
-                "   api/lzma/base.h. Do not edit. Bridged to Model/MtDec.lean by `decide` theorems in Props/C07.lean. -/\n"
-                "namespace XzVerif.Gen.C07\n\n"
-                "def chunkSize : Nat := %d\n"
-                "def bufsLimitFactor : Nat := %d\n"
-                "def workerStates : List String := %s\n"
-                "def partialUpdateModes : List String := %s\n"
-                "def sequences : List String := %s\n"
-                "def retOK : Nat := %d\ndef retStreamEnd : Nat := %d\ndef retDataError : Nat := %d\ndef retProgError : Nat := %d\n"
-                "def retMemlimitError : Nat := %d\ndef retTimedOut : Nat := %d\n\n"
-                "end XzVerif.Gen.C07\n") % (
-            chunk, factor, json.dumps(wst), json.dumps(pum), json.dumps(seqs), rets["LZMA_OK"], rets["LZMA_STREAM_END"],
-            rets["LZMA_DATA_ERROR"], rets["LZMA_PROG_ERROR"], rets["LZMA_MEMLIMIT_ERROR"], rets[internal])
-    except Exception as ex:
-        ctx.obligation_broken("stage G: the protocol constants cannot be extracted from stream_decoder_mt.c / outqueue.c", repr(ex))
+        return dict(ok=r["LZMA_OK"], end=r["LZMA_STREAM_END"], data=r["LZMA_DATA_ERROR"], prog=r["LZMA_PROG_ERROR"],
+                    memlimit=r["LZMA_MEMLIMIT_ERROR"], timed=r[internal])
+    return dict(
+        factor=attempt(lambda: int(re.search(r"#define GET_BUFS_LIMIT\(threads\) \((\d+) \* \(threads\)\)", oq).group(1))),
+        wst=attempt(lambda: enum_names(dec, "worker_state")), pum=attempt(lambda: enum_names(dec, "partial_update_mode")),
+        seqs=attempt(seqs), rets=attempt(rets))
+
+
+def stage_g(ctx):
+    """Regenerate lean/XzVerif/Gen/C07.lean: the protocol constants the model depends on. Numeric constants come from a compiled
+    probe (robust against macros becoming functions, code being moved, ...), with the source text as the fall-back; the enum
+    member lists come from the source text (which also sees members the probe does not know about), with the probe as the
+    fall-back. The obligation is broken only if a constant can be obtained in neither way."""
+    pr = g_probe() or {}
+    rx = g_regex()
+    val = {}
+    for k in ("factor", "rets"):
+        val[k] = pr.get(k) if pr.get(k) is not None else rx.get(k)
+    for k in ("wst", "pum", "seqs"):
+        val[k] = rx.get(k) if rx.get(k) is not None else pr.get(k)
+    missing = [k for k in ("factor", "rets", "wst", "pum", "seqs") if val[k] is None]
+    if missing:
+        ctx.obligation_broken("stage G: protocol constants can be obtained neither from the compiled probe (harness/c07_probe.c) nor "
+                              "from the text of stream_decoder_mt.c / outqueue.c / base.h", "missing: %s; probe %s" %
+                              (missing, "ran" if pr else "did not compile or run"))
         return False
+    ctx.cov["stage-G"] = "probe" if pr else "regex only (the probe did not compile)"
+    rets = val["rets"]
+    body = ("/- REGENERATED by tools/props/c07.py (stage G) from src/liblzma/common/stream_decoder_mt.c, outqueue.c, common.h and\n"
+            "   api/lzma/base.h (compiled probe harness/c07_probe.c, source text as fall-back). Do not edit. Bridged to\n"
+            "   Model/MtDec.lean by `decide` theorems in Props/C07.lean. -/\n"
+            "namespace XzVerif.Gen.C07\n\n"
+            "def bufsLimitFactor : Nat := %d\n"
+            "def workerStates : List String := %s\n"
+            "def partialUpdateModes : List String := %s\n"
+            "def sequences : List String := %s\n"
+            "def retOK : Nat := %d\ndef retStreamEnd : Nat := %d\ndef retDataError : Nat := %d\ndef retProgError : Nat := %d\n"
+            "def retMemlimitError : Nat := %d\ndef retTimedOut : Nat := %d\n\n"
+            "end XzVerif.Gen.C07\n") % (
+        val["factor"], json.dumps(val["wst"]), json.dumps(val["pum"]), json.dumps(val["seqs"]), rets["ok"], rets["end"],
+        rets["data"], rets["prog"], rets["memlimit"], rets["timed"])
     vlib.write_if_changed(vlib.module_path("XzVerif.Gen.C07"), body)
     return True
 
@@ -354,6 +412,8 @@ def run(ctx):
         "the block decoder is deterministic and slicing independent (C06), so the single-threaded decoder on the same bytes is the reference",
         "C side samples schedules (seeded); the universally quantified statements are the Lean theorems about Model/MtDec.lean",
     ]
+    # ---- B (first: stage G's probe is compiled against this build)
+    exe = build(ctx, "asan")
     # ---- G
     g_ok = stage_g(ctx)
     # ---- P
@@ -370,8 +430,6 @@ def run(ctx):
         drv_ok = rc == 0
     if not schedlib.check_header_in_sync(vlib.ROOT):
         ctx.obligation_broken("tools/schedlib.py WRAPPED differs from SCHED_WRAPPED in harness/vsched.h", "")
-    # ---- B
-    exe = build(ctx, "asan")
     if exe is None:
         return "proof"
     # The corpus is produced by the xz built from the unmodified /repo when that build exists (a scratch worktree under
